@@ -38,7 +38,18 @@ var _ = late(func() {
 	properties["C12"].Rules = append(properties["C12"].Rules,
 		&Rule{ID: "C12.err-propagate", Floor: 1,
 			Clause: "in stream.Merge's workers an error returned by an input is delivered to the sender (or is End / lost the first-error race) on every path (same rule as C08.err-propagate restricted to Merge): a worker that treats some other error value as a clean end hides the only error",
-			Run:    subRule(ruleErrPropagate, "stream.Merge")},
+			Run: func(c *Ctx, r *R) {
+				// Merge's workers: its function literals and the unexported helpers they delegate to (m.forward(i))
+				keep := []string{"stream.Merge"}
+				if bi := bgAnalyse(c, "stream.Merge"); bi != nil {
+					for _, f := range bi.all {
+						if f.Parent() == nil {
+							keep = append(keep, c.nameOf(f)+"|")
+						}
+					}
+				}
+				subRule(ruleErrPropagate, keep...)(c, r)
+			}},
 		&Rule{ID: "C12.who-may-cancel", Floor: 2,
 			Clause: "the merged stream's internal context is cancelled only by mergeStream.Close and by the worker that won the first-error race: a cancel anywhere else (e.g. in Next when the caller's context expired) kills a stream that is still live",
 			Run:    ruleMergeWhoMayCancel},
